@@ -24,6 +24,10 @@ func runC01(p *Program, r *Report) {
 	r.Rule("R01.6", "E1", 8, "byte-by-byte resynchronisation: in the three tag scanners (EnvelopeDetector.OnColumn, ProcessAcraStructs, ProcessAcraBlocks) the input cursor only ever moves to a found tag position, forward by exactly one byte (nothing recognised there), or forward by an envelope length parsed from the data at the cursor; any other step (a constant > 1, the tag length) can jump over the start of a real envelope that overlaps a tag look-alike")
 	r.Rule("R01.8", "E3", 25, "no key is used after it was wiped: a buffer passed to a function that overwrites it with zeros on every path (utils.Zeroize*, and every acra function that passes its parameter on to one, e.g. hmac.GenerateHMAC) is not read afterwards and is not passed again inside a loop that does not reload it (a cipher or MAC keyed with zeros protects nothing)")
 	ruleUseAfterWipe(p, r, "R01.8", func(s wipeSite) bool { return true })
+	r.Rule("R01.9", "E2", 8, "a searchable write of an already protected value indexes its plaintext: wherever a blind index is computed for a value that may already be an envelope, the hashed bytes are the decryption result (the reveal path re-verifies the index against the plaintext and hands back the raw stored bytes on a mismatch)")
+	ruleHashedPlaintext(p, r, "R01.9")
+	r.Rule("R01.10", "E3", 2, "every offered key is tried: AcraBlock.Decrypt and DecryptRotatedAcrastruct attempt the decryption inside the loop over the keys they were given, and a failed attempt moves on to the next key instead of ending the call (key ids are two bytes and may collide; rotated keys come newest first)")
+	ruleR0110(p, r)
 	r.Rule("R01.7", "E3", 3, "searchable-reveal state hygiene: every exit of hmac.Processor.OnColumn (re)defines the armed hash (field hashData): it is either cleared or armed for the value just seen; an exit that leaves the previous value's hash armed makes the next column of the session be verified against a stale hash (own values come back as ciphertext) or dereference a cleared matchedHash")
 	ruleR011(p, r)
 	ruleR012(p, r)
@@ -854,4 +858,68 @@ func retText(p *Program, ret *ssa.Return) string {
 		return s
 	}
 	return "return"
+}
+
+func ruleR0110(p *Program, r *Report) {
+	for _, t := range []struct{ spec, keys, attempt string }{
+		{"acrablock.(AcraBlock).Decrypt", "keys", "Decrypt"},
+		{"acrastruct.DecryptRotatedAcrastruct", "privateKeys", "DecryptAcrastruct"},
+	} {
+		fn := p.Func(t.spec)
+		if fn == nil || fn.Blocks == nil {
+			r.Anchor("R01.10", t.spec)
+			continue
+		}
+		keys := paramByName(fn, t.keys)
+		ok, why := false, "no decryption attempt found"
+		for _, c := range callsNamed(fn, t.attempt) {
+			// the attempt uses an element of the keys parameter
+			usesKey := false
+			for _, a := range c.Common().Args {
+				for v := range backClosure(a) {
+					if ia, isIa := v.(*ssa.IndexAddr); isIa && ia.X == ssa.Value(keys) {
+						usesKey = true
+					}
+				}
+			}
+			if !usesKey {
+				continue
+			}
+			// inside a loop: the block can reach itself
+			inLoop := false
+			for _, s := range c.Block().Succs {
+				if s == c.Block() || reaches(s, c.Block(), nil) {
+					inLoop = true
+				}
+			}
+			if !inLoop {
+				why = "the decryption with a key from the list is attempted once, outside the loop over the keys"
+				continue
+			}
+			// its failure edge gets back to the attempt (next key) rather than to a return only
+			var errV ssa.Value
+			if tup, isT := c.Type().(*types.Tuple); isT {
+				errV = extractOf(c, tup.Len()-1)
+			}
+			cont := false
+			for _, i := range allIfs(fn) {
+				if _, nonNil, isN := nilBranches(i, errV); isN {
+					if nonNil == c.Block() || reaches(nonNil, c.Block(), nil) {
+						cont = true
+					}
+				}
+			}
+			if cont {
+				ok = true
+			} else {
+				why = "a failed attempt ends the call instead of trying the next key"
+			}
+		}
+		r.Check(ok, "R01.10", fnName(fn), "decryption is attempted with every key until one fits", p.Pos(fn.Pos()), "attempt inside the loop; failure continues", why+": a value protected under an older key (or under a key whose 2-byte id collides with an earlier one in the list) can no longer be revealed by its owner")
+	}
+}
+
+func init() {
+	mut("C01", "AcraBlock gives up after the first key with a matching id", "acrablock/acrablock.go", "			if err == nil {\n				dataEncryptionKey = decryptedKey\n				break\n			}", "			if err != nil {\n				return nil, ErrInvalidAcraBlock\n			}\n			dataEncryptionKey = decryptedKey\n			break", "R01.10", "every key")
+	mut("C01", "searchable write hashes before it knows whether the value is an envelope", "hmac/dataEncryptor.go", "		var encryptedData, hash []byte\n		if e.decryptor.MatchDataSignature(data) {", "		var encryptedData, hash []byte\n		hash0 := GenerateHMAC(key, data)\n		_ = hash0\n		if e.decryptor.MatchDataSignature(data) {", "R01.9", "already protected value")
 }
